@@ -440,6 +440,7 @@ class NotePerformanceEventSequenceEncoderDecoder(
 
   def labels_to_num_steps(self, labels):
     steps = 0
+    event = None
     for label in labels:
       event = self.class_index_to_event(label, None)
       steps += event[0].event_value
